@@ -57,6 +57,8 @@ class Stage:
                 self.add(blk.i, 'STORE')
             elif p.endswith('VecDeque::<T, A>::is_empty') and 'DltMessage' in a0ty:
                 self.add(blk.i, 'Q_IS_EMPTY')
+            elif re.search(r'VecDeque::<T, A>::(front|front_mut|get)$', p) and 'DltMessage' in a0ty:
+                self.add(blk.i, 'Q_IS_EMPTY')     # `while let Some(m) = q.front()`: the None edge is the emptiness test
             elif p.startswith('std::collections::HashSet::<') and re.search(r'HashSet<u32\b', a0ty):
                 m = p.split('::')[-1]
                 self.add(blk.i, 'LCS_' + m.upper())
